@@ -141,13 +141,10 @@ def delta(prev, cur):
     so a trimmed list is 'drop k' + changes rather than every candle changing."""
     drop = 0
     if prev and cur:
-        # choose the drop that makes the most candles identical position by position
-        best, bestk = -1, 0
-        for k in range(0, len(prev) + 1):
-            same = sum(1 for a, b in zip(prev[k:], cur) if a == b)
-            if same > best:
-                best, bestk = same, k
-        drop = bestk
+        # candles removed from the front: those older than the first candle that is left
+        first = cur[0]["ts"]
+        while drop < len(prev) and prev[drop]["ts"] < first:
+            drop += 1
     elif prev and not cur:
         drop = len(prev)
     kept = prev[drop:]
